@@ -490,11 +490,13 @@ func (g *gen) body(mi int, m *Mod, sc *scope, where string, depth, n int) []*Nod
 		}
 		out = append(out, nd)
 	}
-	if where != KChoice && len(out) > 0 && g.wantInvalid(InvDupSibling) {
+	if where != KChoice {
 		// a second sibling with the name of an existing one
 		for _, o := range out {
-			if o.Kind != KUses {
-				out = append(out, &Node{Kind: KLeaf, Name: o.Name, Type: &Type{Ref: Ref{"", "string"}}})
+			if o.Kind != KUses && o.Kind != KInput && o.Kind != KOutput {
+				if g.wantInvalid(InvDupSibling) {
+					out = append(out, &Node{Kind: KLeaf, Name: o.Name, Type: &Type{Ref: Ref{"", "string"}}})
+				}
 				break
 			}
 		}
